@@ -237,6 +237,12 @@ def _r1(ctx, pkg):
         st = [f for f in fl.facts if f.kind == "attrstore" and f.target in ("alpha", "reactants", "idxfromfile", "rate_string")]
         ok = bool(st) and all(any(_blank_guard(simp(g), p) for g, p in f.guards) for f in st)
         n += 1
+        # a test of the record this rule cannot read (a predicate, a regular expression) is not evidence that blank records are parsed
+        unread = sorted({show(simp(g))[:50] for f in st for g, _ in f.guards if not _blank_guard(simp(g), _) and any(x == ("param", "react_string") for x in walk(simp(g)))
+                         and any(isinstance(x, tuple) and x and x[0] in ("call", "meth") and not (x[0] == "meth" and x[2] in ("strip", "split")) for x in walk(simp(g)))})
+        if not ok and st and unread:
+            ctx.unrec("R1", f"{cls}._parse_string:blank-guard", (file, fn.lineno), "the record is tested in a way this rule cannot read: " + "; ".join(unread)[:160])
+            continue
         ctx.check(ok, "R1", f"{cls}._parse_string:blank-guard", (file, fn.lineno), "nothing is parsed from a blank / None record",
                   found="; ".join(sorted({show(simp(g))[:50] for f in st for g, _ in f.guards}))[:160])
     ctx.floor("R1", "parsers", n, 6)
@@ -308,6 +314,12 @@ def _r2(ctx, pkg):
                 ks = [c[2][1] for c in conjuncts(ifs) if c[0] == "cmp" and c[1] == ("NotIn",) and c[2][0] == bv]
                 good = bool(ks)
                 lists += ks
+                others = [c for c in conjuncts(ifs) if not (c[0] == "meth" and c[2] == "_create_species") and c not in [("cmp", ("NotIn",), (bv, k_)) for k_ in ks]]
+                if not good and others:
+                    # filtered, but not by `tok not in <list>`: which tokens are removed is not read here
+                    ctx.unrec("R2", f"UCLCHEM:{attr}:keyword filter", ("naunet/reactions/uclchemreaction.py", st[-1].line), "the tokens are filtered by a test this rule cannot read: "
+                              + "; ".join(show(c)[:60] for c in others)[:160])
+                    continue
             elif st:
                 ctx.unrec("R2", f"UCLCHEM:{attr}:keyword filter", ("naunet/reactions/uclchemreaction.py", st[-1].line), "the list is not built by a comprehension this rule can read")
                 continue
@@ -568,16 +580,33 @@ def _kida(ctx, pkg):
             ctx.check(blk == want, "R4", f"KIDA:{attr}:columns", (file, ln),
                       f"{attr} are the blank-separated names in columns {'1-34' if attr == 'reactants' else '35-90'} (the blocks are contiguous from column 1)",
                       expected=f"line[{want[0]}:{want[1]}].split()", found=found)
-    # the writer
+    # the writer: the padded name lists it lays out, read from the values (whatever method of Reaction builds them): a call
+    # _fill_list(<names formatted to a fixed width>, n, ..) -- f"{x:<11}" or x.ljust(11)
     w = pkg.method("Reaction", "__format__")
-    # the writer may live in __format__ itself or in a helper it dispatches to: search the class
-    wsrc = ast.unparse(pkg.cls("Reaction").node)
-    fills = re.findall(r"_fill_list\(\[f'\{(\w+):<11\}' for \1 in \w+\], (\d), \w+\)", wsrc)
+    fills = set()
+    for mname in pkg.cls("Reaction").methods:
+        if mname != "__format__" and "_fill_list" not in ast.unparse(pkg.cls("Reaction").methods[mname]):
+            continue
+        wfl = Flow(pkg.expanded("Reaction", mname), R)
+        vals = [v for lst in wfl.assigns.values() for v, *_ in lst] + [f.value for f in wfl.facts if f.value is not None]
+        for v in vals:
+            for x in walk(simp(v)):
+                if isinstance(x, tuple) and len(x) == 4 and x[0] == "call" and x[1] == ("global", "_fill_list") and len(x[2]) >= 2 and x[2][1][0] == "const":
+                    m = as_map(x[2][0])
+                    body = m[1] if m else None
+                    width = None
+                    if body is not None and body[0] == "fstr" and len(body[1]) == 1 and body[1][0][0] == "fmt" and isinstance(body[1][0][2], str):
+                        mm = re.fullmatch(r"<(\d+)s?", body[1][0][2])
+                        width = int(mm.group(1)) if mm else None
+                    elif body is not None and body[0] == "meth" and body[2] == "ljust" and len(body[3]) >= 1 and body[3][0][0] == "const":
+                        width = body[3][0][1]
+                    if width == 11:
+                        fills.add((m[2], x[2][1][1]))
     if not fills:
         ctx.unrec("R4", "KIDA:writer-widths", (R, w.lineno), "cannot find the KIDA writer's padded name lists (_fill_list([f'{x:<11}' for x in ..], n, ..))")
     else:
-        ctx.check(sorted(n_ for _, n_ in fills) == ["3", "5"], "R4", "KIDA:writer-widths", (R, w.lineno),
-                  "the KIDA writer pads 3 reactant and 5 product names to 11 columns each", found=str(fills))
+        ctx.check(sorted(n_ for _, n_ in fills) == [3, 5], "R4", "KIDA:writer-widths", (R, w.lineno),
+                  "the KIDA writer pads 3 reactant and 5 product names to 11 columns each", found=str(sorted(n_ for _, n_ in fills)))
     if len(cols) != 2:
         return
     end = cols["products"][0][1]           # the numeric tail is the text after the product block
